@@ -104,6 +104,14 @@ def run(ctx):
             x = ctx.rng.randint(lo_x, hi_x)
             want = hyper_exact(x, N, n, G)[alt]; r = guarded(utils.hypergeometric, x, N, n, G, alt)
             det = {"call": "hypergeometric", "x": x, "N": N, "n": n, "G": G, "alternative": alt}; site = "hypergeometric"; ctx.count("negligible-sampling-fraction")
+        elif u_ < 0.33:
+            # large balanced populations (n and G near N/2): single pmf terms are ~1e-600 relative to the binomial coefficients involved
+            N = ctx.rng.choice([1040, 1500, 2000, 3000]); n = N // 2 - ctx.rng.choice([0, 0, 1, 7]); G = N // 2 - ctx.rng.choice([0, 0, 3, 20])
+            lo_x, hi_x = max(0, n - (N - G)), min(n, G)
+            mid = n * G // N; sd_ = max(1, int((n * G * (N - G) * (N - n) / (N * N * (N - 1))) ** 0.5))
+            x = min(max(mid + ctx.rng.choice([0, 1, -1, 2, -2, 3, -3, 5, -5]) * sd_ + ctx.rng.randint(-2, 2), lo_x), hi_x)
+            want = hyper_exact(x, N, n, G)[alt]; r = guarded(utils.hypergeometric, x, N, n, G, alt)
+            det = {"call": "hypergeometric", "x": x, "N": N, "n": n, "G": G, "alternative": alt}; site = "hypergeometric"; ctx.count("large-balanced-population")
         elif u_ < 0.7:
             N = ctx.rng.choice([40, 60, 100, 150, 200]); n = ctx.rng.randint(N // 5, N // 2); G = ctx.rng.randint(N // 5, N // 2)
             lo_x, hi_x = max(0, n - (N - G)), min(n, G)
